@@ -1,9 +1,11 @@
 From Coq Require Import Extraction ExtrOcamlBasic.
-From PV Require Import Lib.ExtractBase Model.Pool Model.PoolLaunch Model.GrpcJsonStart Model.GrpcWarmUp.
+From PV Require Import Lib.ExtractBase Model.Pool Model.PoolLaunch Model.GrpcJsonStart Model.GrpcWarmUp Model.EncAggrRun Model.PlugFactory.
 Extraction Language OCaml.
 Extraction "extracted/C05_model.ml" xb_types grun first_disabled ginit gstep fixed orig current terminal wait_returns
   total_created total_closed total_unbound all_finished any_panicked
   spec_outcome_b spec_term_b spec_guns_b cause_eqb
   outstanding_at_wait total_outstanding total_comp_runs spec_stopped_b run_async_prog ra_exec pre_launched
   gj_start gj_fuel gj_spec_fails gj_spec_delivered gj_file jres_is_failure
-  warm_up tree_policy wres_failed gw_spec_fails gw_spec_cause gw_spec_methods gw_services gw_methods refusal_is_failure code_not_found.
+  warm_up tree_policy wres_failed gw_spec_fails gw_spec_cause gw_spec_methods gw_services gw_methods refusal_is_failure code_not_found
+  ea_run tree_epolicy ea_spec_fails ea_spec_first ea_of_trace ea_occurs ecause_eqb
+  factory_call tree_cvprog factory_spec creation_error fres_failed wf_out wf_direct.
